@@ -4,6 +4,7 @@ import (
 	"bytes"
 	"errors"
 	"fmt"
+	"time"
 
 	"github.com/gorilla/websocket"
 	"pgregory.net/rapid"
@@ -21,6 +22,11 @@ type WireCase struct {
 	Reads  []RStep `json:"reads,omitempty"`
 	// EOFWith: the reader's transport returns its last bytes together with io.EOF.
 	EOFWith bool `json:"eof_with,omitempty"`
+	// ReaderWriteSide: 0 healthy; 1 the receiving application has already sent
+	// its close frame (and keeps reading); 2 every transport write of the
+	// receiver fails.  Its automatic replies cannot get out: what it receives
+	// is unaffected.
+	ReaderWriteSide int `json:"reader_write_side,omitempty"`
 }
 
 func genWireCase(t *rapid.T) WireCase {
@@ -43,6 +49,7 @@ func genWireCase(t *rapid.T) WireCase {
 	c.Chunks = genChunks(t, "chunks", total)
 	c.Reads = genReadProgram(t, c.R.ReadBuf, false, true)
 	c.EOFWith = rapid.Bool().Draw(t, "eof_with_last_bytes")
+	c.ReaderWriteSide = rapid.SampledFrom([]int{0, 0, 0, 1, 2}).Draw(t, "reader_write_side")
 	return c
 }
 
@@ -218,6 +225,14 @@ func checkC01(c WireCase, o *Obs) error {
 		return err
 	}
 	wire := append([]byte(nil), trW.Wrote...)
+	switch c.ReaderWriteSide {
+	case 1:
+		cr.WriteControl(websocket.CloseMessage, websocket.FormatCloseMessage(1001, ""), time.Time{})
+		o.Class("receiver_sent_its_close_first")
+	case 2:
+		trR.SetWriteFault(&xport.WriteFault{K: 0, Kind: xport.FaultError})
+		o.Class("receiver_write_side_dead")
+	}
 	trR.SetInput(wire, c.Chunks)
 	trR.EOFWithData = c.EOFWith
 	var cl ctlLog
